@@ -637,7 +637,9 @@ func (op *ShellOperator) taskHandleHookRun(t task.Task) queue.TaskResult {
 	}
 
 	// Unlock Kubernetes events for all monitors when Synchronization task is done.
-	if isSynchronization && res.Status == "Success" {
+	// Monitor IDs are set only for Synchronization tasks and are kept when the task is retried
+	// with combined binding contexts, which may no longer start with the Synchronization context.
+	if (isSynchronization || len(hookMeta.MonitorIDs) > 0) && res.Status == "Success" {
 		taskLogEntry.Info("Unlock kubernetes.Event tasks")
 		for _, monitorID := range hookMeta.MonitorIDs {
 			taskHook.HookController.UnlockKubernetesEventsFor(monitorID)
